@@ -48,14 +48,12 @@ let err_name = function
   | EBadFormat c -> "EBadFormat/" ^ hex_of_z c | ENotEnoughValues -> "ENotEnoughValues" | EEOF -> "EEOF"
   | EUnmodelled -> "EUnmodelled"
 
-let defect_name = function DXopt -> "Xopt" | DC0 -> "c0"
 
 let show_unpack (r : uout) : string =
   match r with
   | UOk (vs, j) -> "ok:" ^ String.concat "," (List.map show_value vs @ ["i" ^ dec_of_z (Z.add j (z_of_int 1))])
   | UErr e -> "err:" ^ err_name e
   | UPanic -> "panic"
-  | UBigAlloc -> "bigalloc"
   | UOutOfFuel -> "outoffuel"
 let show_size (r : sout) : string =
   match r with
@@ -70,10 +68,10 @@ let () =
       let fmt = zl_of_hex f in
       let p, u, extra =
         (match pack fmt (parse_values vs) with
-         | POk (out, packed, defs) ->
+         | POk (out, packed) ->
            "ok:" ^ show_value (VStr out), show_unpack (unpack fmt out Z0),
            " G:" ^ (if packed = [] then "-" else String.concat "," (List.map show_value packed))
-           ^ " D:" ^ (if defs = [] then "-" else String.concat "," (List.map defect_name defs))
+
          | PErr e -> "err:" ^ err_name e, "-", ""
          | POutOfFuel -> "outoffuel", "-", "") in
       print_endline (id ^ " P:" ^ p ^ " U:" ^ u ^ " S:" ^ show_size (packsize fmt) ^ extra)
